@@ -50,11 +50,14 @@ def piece_src(p) -> str:
     if t == "echo":
         return "{%" + l + " echo 'E' " + r + "%}"
     if t == "inline":
-        return "{%" + l + " # note " + r + "%}"
+        body = p.get("v", "note")
+        return "{%" + l + " #" + (" " + body + " " if body else " ") + r + "%}"
     if t == "liquid":
         return "{%" + l + " liquid\n echo 'L'\n " + r + "%}"
     if t == "tcomment":
-        return "{#" + l + " tc " + r + "#}"
+        body = p.get("v", "tc")
+        # "{#-#}" would be ambiguous: keep a space between the hyphens of an empty comment
+        return "{#" + l + (" " + body + " " if body else (" " if (l or r) else "")) + r + "#}"
     if t == "raw":
         return "{%" + l + " raw " + ir + "%}" + p["v"] + "{%" + il + " endraw " + r + "%}"
     if t == "comment":
@@ -142,6 +145,9 @@ def variants() -> list:
                 for il, ir in itertools.product([False, True], repeat=2):
                     for body in BODIES[k][:2]:
                         out.append({"t": k, "l": l, "r": r, "il": il, "ir": ir, "v": body})
+            elif k in ("inline", "tcomment"):
+                out.append({"t": k, "l": l, "r": r})
+                out.append({"t": k, "l": l, "r": r, "v": ""})  # empty body
             else:
                 out.append({"t": k, "l": l, "r": r})
     return out
